@@ -1,0 +1,146 @@
+//go:build verif
+
+// Copyright Istio Authors
+//
+// Licensed under the Apache License, Version 2.0 (the "License");
+// you may not use this file except in compliance with the License.
+// You may obtain a copy of the License at
+//
+//     http://www.apache.org/licenses/LICENSE-2.0
+//
+// Unless required by applicable law or agreed to in writing, software
+// distributed under the License is distributed on an "AS IS" BASIS,
+// WITHOUT WARRANTIES OR CONDITIONS OF ANY KIND, either express or implied.
+// See the License for the specific language governing permissions and
+// limitations under the License.
+
+// Package verif is the ghost vocabulary of the contract files (zz_verif_contracts.go) that the
+// out-of-tree deductive verifier reads. It only exists under the build tag "verif". For the
+// verifier every function here is an intrinsic; the bodies below are the executable reading
+// used when a counterexample is replayed against the compiled code.
+package verif
+
+import (
+	"fmt"
+	"reflect"
+)
+
+// Failure is panicked by a violated Ensures/Assert during a replay.
+type Failure struct{ Name string }
+
+func (f Failure) Error() string { return "verif: violated " + f.Name }
+
+// PreconditionNotMet is panicked by a violated Requires/Assume during a replay: the replayed input is
+// outside the contract, so the replay proves nothing.
+type PreconditionNotMet struct{ Name string }
+
+func (f PreconditionNotMet) Error() string {
+	return "verif: replay input outside precondition " + f.Name
+}
+
+// Requires states a precondition of the contract it appears in.
+func Requires(name string, cond bool) {
+	if !cond {
+		panic(PreconditionNotMet{name})
+	}
+}
+
+// Assume restricts the inputs considered. Every use is reported as an assumption.
+func Assume(name string, cond bool) {
+	if !cond {
+		panic(PreconditionNotMet{name})
+	}
+}
+
+// Ensures states a postcondition of the contract it appears in.
+func Ensures(name string, cond bool) {
+	if !cond {
+		panic(Failure{name})
+	}
+}
+
+// Assert states an obligation at this point of a lemma.
+func Assert(name string, cond bool) {
+	if !cond {
+		panic(Failure{name})
+	}
+}
+
+// Cover states that this point must be reachable (vacuity guard).
+func Cover(name string) {}
+
+// universe holds, per type, the finite candidate values a replay quantifies over.
+var universe = map[reflect.Type][]any{}
+
+// AddUniverse registers candidate values for replayed quantifiers.
+func AddUniverse[T any](vs ...T) {
+	t := reflect.TypeFor[T]()
+	for _, v := range vs {
+		universe[t] = append(universe[t], v)
+	}
+}
+
+// Forall is universal quantification over all values of T.
+func Forall[T any](f func(T) bool) bool {
+	for _, v := range universe[reflect.TypeFor[T]()] {
+		if !f(v.(T)) {
+			return false
+		}
+	}
+	return true
+}
+
+// Exists is existential quantification over all values of T.
+func Exists[T any](f func(T) bool) bool {
+	for _, v := range universe[reflect.TypeFor[T]()] {
+		if f(v.(T)) {
+			return true
+		}
+	}
+	return false
+}
+
+// oldValues carries values captured before the call under contract during a replay.
+var oldValues = map[string]any{}
+
+// Old evaluates f in the state before the call under contract (in a loop invariant: on entry to
+// the function). During a replay the value must have been captured with Capture.
+func Old[T any](f func() T) T {
+	return f()
+}
+
+// Any is an arbitrary value of T.
+func Any[T any]() T {
+	var z T
+	return z
+}
+
+// Visited reports whether key k has already been produced by the range loop over m that the
+// invariant is attached to.
+func Visited[K comparable, V any](m map[K]V, k K) bool { return false }
+
+// Implies is logical implication (both sides are evaluated).
+func Implies(a, b bool) bool { return !a || b }
+
+// Iff is logical equivalence.
+func Iff(a, b bool) bool { return a == b }
+
+// Describe renders a replay value.
+func Describe(v any) string { return fmt.Sprintf("%#v", v) }
+
+// Same is reference identity for maps, slices, pointers and functions (Go's == is not defined on
+// maps and slices). Two nil references are the same.
+func Same[T any](a, b T) bool {
+	va, vb := reflect.ValueOf(a), reflect.ValueOf(b)
+	switch va.Kind() {
+	case reflect.Map, reflect.Slice, reflect.Pointer, reflect.Func, reflect.Chan, reflect.UnsafePointer:
+		if va.Kind() == reflect.Slice && va.Len() != vb.Len() {
+			return false
+		}
+		return va.Pointer() == vb.Pointer()
+	}
+	return reflect.DeepEqual(a, b)
+}
+
+// Fresh reports that the object r refers to did not exist before the call under contract.
+func Fresh[T any](r T) bool { return true }
